@@ -9,9 +9,11 @@ use crate::Ctx;
 use sdjwt::{Algorithm, Header, Validation};
 use serde_json::{json, Value};
 
-const AUDS: [&str; 8] = ["https://verifier.example/cb", "https://verifier.example/cb", "https://verifier.example/cb", " https://verifier.example/cb", "https://verifier.example/cb\n", "verifier\u{a0}",
+const AUDS: [&str; 9] = ["https://verifier.example/cb", "https://verifier.example/cb", "https://verifier.example/cb", " https://verifier.example/cb", "https://verifier.example/cb\n", "verifier\u{a0}",
     // an audience is an opaque string: upper-case letters in scheme or host, a trailing slash, an escape stay as given
-    "HTTPS://Verifier.Example/CallBack/", "openid4vp://Wallet.Example/%7Euser"];
+    "HTTPS://Verifier.Example/CallBack/", "openid4vp://Wallet.Example/%7Euser",
+    // ... and so do commas and semicolons
+    "https://verifier.example/cb?scope=name,email;x"];
 thread_local! { static AUD_IX: std::cell::Cell<usize> = std::cell::Cell::new(0); }
 /// the audience of the case being run: whatever string the caller supplies is the audience, also one with white
 /// space around it (it is signed and compared as it is)
